@@ -29,6 +29,42 @@ theorem gather_line_false (tail : Bytes) (bad : Bool) :
     · injection h with h1 h2 h3 h4
       exact ⟨[l], by rw [h2]; rfl, by simp, by simp; omega⟩
 
+/-- the physical lines before the cursor end a logical line: there is none, or the last one has no continuation mark -/
+def LS (pre : List Bytes) : Prop := ∀ l, pre.getLast? = some l → endsBackslash l = false
+
+theorem LS_nil : LS [] := by intro l h; cases h
+
+/-- the last physical line a complete logical line is gathered from has no continuation mark -/
+theorem gather_line_false_last (tail : Bytes) (bad : Bool) :
+    ∀ (rest : List Bytes) (acc : Bytes) (k0 : Nat) {text : Bytes} {rest' : List Bytes} {k : Nat},
+      gather tail bad acc rest k0 = .line text rest' k false →
+      ∃ used l, rest = used ++ l :: rest' ∧ endsBackslash l = false := by
+  intro rest
+  induction rest with
+  | nil =>
+    intro acc k0 text rest' k h
+    unfold gather at h
+    split at h
+    · cases h
+    · split at h
+      · cases h
+      · cases h
+  | cons l rest ih =>
+    intro acc k0 text rest' k h
+    unfold gather at h
+    split at h
+    · obtain ⟨used, l', h1, h2⟩ := ih _ _ h
+      exact ⟨l :: used, l', by rw [h1]; rfl, h2⟩
+    · rename_i hnb
+      injection h with h1 h2 h3 h4
+      exact ⟨[], l, by rw [h2]; rfl, by simpa using hnb⟩
+
+theorem LS_append_cons (pre used : List Bytes) (l : Bytes) (h : endsBackslash l = false) : LS (pre ++ (used ++ [l])) := by
+  intro x hx
+  rw [← List.append_assoc, List.getLast?_append] at hx
+  simp at hx
+  rw [← hx]; exact h
+
 theorem gather_line_true (tail : Bytes) (bad : Bool) :
     ∀ (rest : List Bytes) (acc : Bytes) (k0 : Nat) {text : Bytes} {rest' : List Bytes} {k : Nat},
       gather tail bad acc rest k0 = .line text rest' k true →
@@ -115,7 +151,7 @@ theorem ignore_nil : ignoreLine (trimSpace []) = true := by decide
 /-- the frame is a faithful cursor into the file it names -/
 def FrameOK (fs : FS) (f : Frame) : Prop :=
   ∃ body tail0, fs f.file = .file body tail0 f.bad ∧ f.lineno = f.nl + 1 ∧
-    ((f.tail = tail0 ∧ ∃ pre, body = pre ++ f.rest ∧ pre.length = f.nl) ∨
+    ((f.tail = tail0 ∧ ∃ pre, body = pre ++ f.rest ∧ pre.length = f.nl ∧ LS pre) ∨
      (f.rest = [] ∧ f.tail = [] ∧ f.bad = false ∧ body.length < f.nl))
 
 /-- `(file, l)`: physical lines `l-k … l-1` of `file` are an include directive -/
@@ -139,12 +175,17 @@ def DiagOK (fs : FS) (d : Diag) : Prop :=
   (∃ body tail bad, fs d.file = .file body tail bad ∧ 1 ≤ d.line ∧ d.line ≤ nphys body tail bad) ∧
   d.ctxLo ≤ d.line - 1 ∧ d.line - 1 ≤ d.ctxHi ∧ d.ctxHi < d.nl ∧ ChainOK fs d.chain
 
+/-- physical line `line` (1-based) of `body` starts a logical line: it is the first one, or the line before it has no
+continuation mark -/
+def LineStart (body : List Bytes) (line : Nat) : Prop :=
+  line = 1 ∨ ∃ l, body[line - 2]? = some l ∧ endsBackslash l = false
+
 /-- what is known about a clause handed to the parser -/
 def ClauseFacts (fs : FS) (text : Bytes) (line : Nat) (r : Frame) (below : List Frame) : Prop :=
   ∃ d, wrapErr r below line .clause = some d ∧ DiagOK fs d ∧ d.file = r.file ∧ d.line = line ∧
     d.chain = chainOf below ∧ d.kind = .clause ∧
     ∃ body tail bad raw rest k eof, fs r.file = .file body tail bad ∧
-      clauseAt body tail bad line = .line raw rest k eof ∧ text = trimSpace raw
+      clauseAt body tail bad line = .line raw rest k eof ∧ text = trimSpace raw ∧ LineStart body line
 
 theorem chain_ok {fs : FS} {below : List Frame} (h : ∀ f ∈ below, Susp fs f) :
     ChainOK fs (chainOf below) := by
@@ -166,11 +207,16 @@ theorem advance_ok {fs : FS} {r : Frame} (h : FrameOK fs r) {text : Bytes} {rest
   cases eof with
   | false =>
     obtain ⟨used, h1, _, h3⟩ := gather_line_false _ _ _ _ _ hg
-    rcases hd with ⟨ht, pre, hb, hp⟩ | ⟨hr, _, _, _⟩
-    · refine ⟨body, tail0, hfs, ?_, Or.inl ⟨ht, pre ++ used, ?_, ?_⟩⟩
+    obtain ⟨used', lst, h1', hlst⟩ := gather_line_false_last _ _ _ _ _ hg
+    have hused : used = used' ++ [lst] := by
+      have : used ++ rest = (used' ++ [lst]) ++ rest := by rw [← h1, h1']; simp
+      exact List.append_cancel_right this
+    rcases hd with ⟨ht, pre, hb, hp, _⟩ | ⟨hr, _, _, _⟩
+    · refine ⟨body, tail0, hfs, ?_, Or.inl ⟨ht, pre ++ used, ?_, ?_, ?_⟩⟩
       · simp [Frame.advance]; omega
       · simp [Frame.advance, hb, h1]
       · simp [Frame.advance, hp]; omega
+      · rw [hused]; exact LS_append_cons pre used' lst hlst
     · rw [hr] at h1
       have : used = [] := (List.append_eq_nil_iff.mp h1.symm).1
       contradiction
@@ -180,7 +226,7 @@ theorem advance_ok {fs : FS} {r : Frame} (h : FrameOK fs r) {text : Bytes} {rest
     · simp [Frame.advance]; omega
     · simp [Frame.advance, hr']
     · simp [Frame.advance]
-    · rcases hd with ⟨_, pre, hbody, hp⟩ | ⟨_, _, _, hlt⟩
+    · rcases hd with ⟨_, pre, hbody, hp, _⟩ | ⟨_, _, _, hlt⟩
       · have : body.length = pre.length + r.rest.length := by rw [hbody]; simp
         simp [Frame.advance]; omega
       · simp [Frame.advance]; omega
@@ -191,10 +237,26 @@ theorem line_pos {fs : FS} {r : Frame} (h : FrameOK fs r) {text : Bytes} {rest :
     (hni : ignoreLine (trimSpace text) = false) :
     ∃ body tail0, fs r.file = .file body tail0 r.bad ∧
       clauseAt body tail0 r.bad r.lineno = .line text rest k eof ∧
-      1 ≤ k ∧ r.nl + k ≤ nphys body tail0 r.bad ∧ (eof = true → r.tail ≠ []) := by
+      (1 ≤ k ∧ r.nl + k ≤ nphys body tail0 r.bad ∧ (eof = true → r.tail ≠ [])) ∧ LineStart body r.lineno := by
   obtain ⟨body, tail0, hfs, hln, hd⟩ := h
-  rcases hd with ⟨ht, pre, hb, hp⟩ | ⟨hr, htl, hbad, _⟩
-  · refine ⟨body, tail0, hfs, ?_, ?_⟩
+  rcases hd with ⟨ht, pre, hb, hp, hls⟩ | ⟨hr, htl, hbad, _⟩
+  · refine ⟨body, tail0, hfs, ?_, ?_, ?_⟩
+    rotate_left 2
+    · -- the cursor is at the start of a logical line
+      unfold LineStart
+      cases hpre : pre.getLast? with
+      | none =>
+        have : pre = [] := by simpa using hpre
+        left; rw [hln, ← hp, this]; rfl
+      | some l =>
+        right
+        refine ⟨l, ?_, hls l hpre⟩
+        have hne : pre ≠ [] := by intro e; rw [e] at hpre; cases hpre
+        have hlen : 0 < pre.length := List.length_pos_iff.mpr hne
+        have hidx : r.lineno - 2 = pre.length - 1 := by omega
+        rw [hidx, hb, List.getElem?_append_left (by omega)]
+        rw [List.getLast?_eq_getElem?] at hpre
+        exact hpre
     · unfold clauseAt
       have : body.drop (r.lineno - 1) = r.rest := by
         rw [hln, hb, Nat.add_sub_cancel, ← hp, drop_pre]
@@ -436,7 +498,7 @@ theorem rem_new {L : Nat} {fs : FS} (hs : Small L fs) {cand : Name} {b : List By
 
 theorem new_ok {fs : FS} {cand : Name} {b : List Bytes} {t : Bytes} {bad : Bool}
     (hf : fs cand = .file b t bad) : FrameOK fs (newFrame cand b t bad) :=
-  ⟨b, t, hf, rfl, Or.inl ⟨rfl, [], rfl, rfl⟩⟩
+  ⟨b, t, hf, rfl, Or.inl ⟨rfl, [], rfl, rfl, LS_nil⟩⟩
 
 /-! ### One call of `readLine` -/
 
@@ -535,7 +597,7 @@ theorem readLine_spec {fs : FS} (L : Nat) (ipath : List Name) (tbl : Table) :
           simp at hl
       · have hni : ignoreLine (trimSpace text) = false := by simpa using hign
         rw [if_neg hign]
-        obtain ⟨body', tail', hfs', hcl, hk1, hnp, htl⟩ := line_pos hok hg hni
+        obtain ⟨body', tail', hfs', hcl, ⟨hk1, hnp, htl⟩, hstart⟩ := line_pos hok hg hni
         have hrem := rem_advance_lt hg htl
         have hwrap : ∀ kind, ∃ d, wrapErr (r.advance rest k eof) below r.lineno kind = some d ∧
             DiagOK fs d ∧ d.file = (r.advance rest k eof).file ∧ d.line = r.lineno ∧
@@ -549,7 +611,7 @@ theorem readLine_spec {fs : FS} (L : Nat) (ipath : List Name) (tbl : Table) :
           refine ⟨⟨hdepth, hadv, hbelow⟩, fun _ => phi_step below hrem, ?_⟩
           obtain ⟨d, h1, h2, h3, h4, h5, h6⟩ := hwrap .clause
           exact ⟨d, h1, h2, h3, h4, h5, h6, body', tail', r.bad, text, rest, k, eof,
-            by simpa [Frame.advance] using hfs', hcl, rfl⟩
+            by simpa [Frame.advance] using hfs', hcl, rfl, hstart⟩
         | some arg =>
           simp only
           split
